@@ -125,7 +125,9 @@ func runOne(t *testing.T, tape *simrt.Tape, a *Args, w WorldFunc, seed uint64, i
 	if a.Out != "" && tape != nil {
 		// breadcrumb for the driver: which run was in progress if the process
 		// dies from a panic in a goroutine the harness does not own
-		b, _ := json.Marshal(map[string]interface{}{"seed": seed, "index": idx, "knobs": a.Knobs, "replay": tape.IsReplay()})
+		// (a tape that is being replayed - minimisation - goes in too, so
+		// that a crash in that phase can be reproduced)
+		b, _ := json.Marshal(map[string]interface{}{"seed": seed, "index": idx, "knobs": a.Knobs, "replay": tape.IsReplay(), "tape": tape.Input()})
 		os.WriteFile(a.Out+".cur", b, 0o644)
 	}
 	func() {
